@@ -306,6 +306,11 @@ class Exec(ExprMixin, CallMixin):
         if isinstance(cur, VList) and isinstance(st.op, ast.Add):
             self.list_extend(cur, rhs)
             return
+        if isinstance(st.op, ast.BitOr) and (isinstance(cur, VDict) or (isinstance(cur, VAny) and type(cur).__name__ == "VAnyRef")):
+            # d |= other: dict.__ior__ merges IN PLACE -- every alias of d (the caller's dict included) sees the change
+            d = cur if isinstance(cur, VDict) else self.dict_view(cur)
+            self.dict_method(d, "update", [rhs], {}, st.lineno)
+            return
         v = self.binop(st.op, cur, rhs, st.lineno)
         self.assign_target(st.target, v, fr)
 
